@@ -76,6 +76,21 @@ def ident(W, x, y):
     return x == y
 
 
+def require_same(W, x, y, label, detail=''):
+    """two scalars must be equal: identical terms are accepted at once,
+    otherwise the solver must prove them equal (so that a counterexample
+    makes them differ in the replay); numeric tolerance in the replay."""
+    if isinstance(x, (tuple, str)) or isinstance(y, (tuple, str)) or \
+            x is None or y is None:
+        return W.require(x == y, label, detail)
+    if W.symbolic:
+        if ident(W, x, y):
+            W.ok(label)
+            return True
+        return W.require(world.scalar_eq(x, y), label, detail)
+    return W.require(W.same(x, y), label, detail)
+
+
 def stored_rows(W, S, include_unused_transfer=True):
     rows = []
     for i in range(len(S.points)):
